@@ -146,7 +146,7 @@ Proof.
     destruct (Z.ltb_spec i k); [apply Hlow; lia | reflexivity].
 Qed.
 
-(* all of it, as Properties_spec.v states it *)
+(* all of it, as Properties.v states it (second half of C14_domain_and_spec) *)
 Lemma spec_facts :
   (forall x, 0 <= x ->
      (exists k, 0 <= k /\ bit_ceil_spec x = 2 ^ k) /\ x <= bit_ceil_spec x
